@@ -4,6 +4,9 @@
 // " PROPFAIL@<op>:<why>" when the implementation's own answers violate the property (checked against a
 // reference multiset / key set kept here, independent of the Coq model).
 //
+// The comparator is an object WITH state (table pointer + direction) passed to the heap's constructor; <rev> = 2 runs
+// the default template arguments (std::less, aliases d_ary_heap / d_ary_addressable_int_heap), <rev> = 3 (dary) runs
+// heap-owning keys (moved-from / mixed-up elements show in their tag).
 //   dary <arity> <rev> ops...        ops: P,k,p (push const&)  PR,k,p (push &&)  O (pop)  OX (extract_top)  S,k,p  UA
 //                                         B,k:p;.. (build_heap const vector&)  Bi,.. (iterator range)  Bm,.. (vector&&)
 //                                         C  D(rain)  V,n (reserve)  Y (copy ctor+assign round trip)  Z (move round trip)
@@ -19,10 +22,16 @@
 #include <set>
 #include <sstream>
 #include <string>
+#include <type_traits>
 #include <vector>
 
 #include <tlx/container/d_ary_addressable_int_heap.hpp>
 #include <tlx/container/d_ary_heap.hpp>
+
+// compiled in two parts (checks/C13.py builds them in parallel): C13_PART 1 = dary + addr<uint8_t>, 2 = other addr key types
+#ifndef C13_PART
+#define C13_PART 0
+#endif
 
 static std::vector<unsigned> g_prio;
 static bool g_rev = false;
@@ -33,12 +42,37 @@ static void set_prio(size_t k, unsigned p) {
 }
 static unsigned prio_of(size_t k) { return k < g_prio.size() ? g_prio[k] : 0; }
 
-template <typename K>
+// keys: plain integers, or (DAryHeap only) a heap-owning key whose tag betrays a moved-from / mixed-up element
+struct StrKey {
+    uint32_t id; std::string tag;
+    StrKey() : id(0), tag("k0") {}
+    explicit StrKey(uint32_t i) : id(i), tag("k" + std::to_string(i)) {}
+    bool intact() const { return tag == "k" + std::to_string(id); }
+};
+static size_t id_of(const StrKey& k) { return k.id; }
+static size_t id_of(uint64_t k) { return static_cast<size_t>(k); }
+template <typename K> static K make_key(long id) { return static_cast<K>(id); }
+template <> StrKey make_key<StrKey>(long id) { return StrKey(static_cast<uint32_t>(id)); }
+static bool intact(const StrKey& k) { return k.intact(); }
+static bool intact(uint64_t) { return true; }
+
+// comparator WITH STATE (pointer to the table, direction flag), handed to the heap's constructor
 struct TabLess {
+    const std::vector<unsigned>* prio; bool rev;
+    TabLess(const std::vector<unsigned>* p, bool r) : prio(p), rev(r) {}
+    unsigned at(size_t k) const { return k < prio->size() ? (*prio)[k] : 0; }
+    template <typename K>
     bool operator()(const K& a, const K& b) const {
-        return g_rev ? prio_of(b) < prio_of(a) : prio_of(a) < prio_of(b);
+        return rev ? at(id_of(b)) < at(id_of(a)) : at(id_of(a)) < at(id_of(b));
     }
 };
+// heaps with the default comparator (std::less, no constructor argument) are built without one
+template <typename H>
+static H fresh(std::true_type) { return H(TabLess(&g_prio, g_rev)); }
+template <typename H>
+static H fresh(std::false_type) { return H(); }
+template <typename H>
+static H fresh() { return fresh<H>(std::is_constructible<H, TabLess>()); }
 
 struct Op { std::string name; std::vector<long> f; std::vector<std::pair<long, long>> kps; };
 
@@ -80,20 +114,19 @@ static bool is_extreme(It b, It e, unsigned p) {
     return true;
 }
 
-template <unsigned Arity>
+template <typename H, typename Key>
 static void run_dary(const std::vector<Op>& ops, std::ostringstream& out) {
-    using H = tlx::DAryHeap<uint32_t, Arity, TabLess<uint32_t>>;
-    H h;
+    H h = fresh<H>();
     std::multiset<uint32_t> ref;
     bool dirty = false, first = true; std::string fail;
     size_t npop = 0;
     auto note = [&](size_t i, const char* why) { if (fail.empty()) fail = std::to_string(i) + ":" + why; };
     auto do_pop = [&](size_t i, bool extract) {
-        uint32_t t = h.top();
+        uint32_t t = static_cast<uint32_t>(id_of(h.top()));
         if (!dirty && !is_extreme(ref.begin(), ref.end(), prio_of(t))) note(i, "pop-not-min");
         auto it = ref.find(t);
         if (it == ref.end()) note(i, "pop-unknown-key"); else ref.erase(it);
-        if (!extract) h.pop(); else { uint32_t e = h.extract_top(); if (e != t) note(i, "extract_top!=top"); }
+        if (!extract) h.pop(); else { Key e = h.extract_top(); if (id_of(e) != t || !intact(e)) note(i, "extract_top!=top"); }
     };
     auto emit = [&](size_t i) {
         bool sane = h.sanity_check();
@@ -101,10 +134,11 @@ static void run_dary(const std::vector<Op>& ops, std::ostringstream& out) {
         if (!first) out << ' ';
         first = false;
         out << ch.size() << ':';
-        if (ch.empty()) out << '-'; else out << ch.top();
+        if (ch.empty()) out << '-'; else out << id_of(ch.top());
         out << ':' << (sane ? 1 : 0);
         if (ch.size() != ref.size() || ch.empty() != ref.empty() || ch.capacity() < ch.size()) note(i, "size");
-        else if (!dirty && !ch.empty() && (!ref.count(ch.top()) || !is_extreme(ref.begin(), ref.end(), prio_of(ch.top())))) note(i, "top-not-min");
+        else if (!ch.empty() && !intact(ch.top())) note(i, "moved-from-key");
+        else if (!dirty && !ch.empty() && (!ref.count(id_of(ch.top())) || !is_extreme(ref.begin(), ref.end(), prio_of(id_of(ch.top()))))) note(i, "top-not-min");
         else if (!dirty && !sane) note(i, "sanity_check");
     };
     for (size_t i = 0; i < ops.size(); ++i) {
@@ -113,7 +147,7 @@ static void run_dary(const std::vector<Op>& ops, std::ostringstream& out) {
         // a key that is already stored keeps its priority (the table may only change through S + update_all)
         if (o.name == "P" || o.name == "PR") {
             if (!ref.count(o.f[0])) set_prio(o.f[0], o.f[1]);
-            uint32_t k = static_cast<uint32_t>(o.f[0]);
+            Key k = make_key<Key>(o.f[0]);
             if (o.name == "P") h.push(k); else h.push(std::move(k));      // const& / && overload
             ref.insert(o.f[0]);
         }
@@ -121,26 +155,26 @@ static void run_dary(const std::vector<Op>& ops, std::ostringstream& out) {
         else if (o.name == "S") { set_prio(o.f[0], o.f[1]); dirty = true; }
         else if (o.name == "UA") { h.update_all(); dirty = false; }
         else if (o.name[0] == 'B') {
-            std::vector<uint32_t> keys;
-            for (auto& kp : o.kps) { set_prio(kp.first, kp.second); keys.push_back(kp.first); }
+            std::vector<Key> keys;
+            ref.clear();
+            for (auto& kp : o.kps) { set_prio(kp.first, kp.second); keys.push_back(make_key<Key>(kp.first)); ref.insert(kp.first); }
             if (o.name == "B") h.build_heap(keys);                               // const vector&
             else if (o.name == "Bi") h.build_heap(keys.begin(), keys.end());     // iterator range
-            else { std::vector<uint32_t> tmp(keys); h.build_heap(std::move(tmp)); }   // vector&&
-            ref.clear(); ref.insert(keys.begin(), keys.end()); dirty = false;
+            else { std::vector<Key> tmp(keys); h.build_heap(std::move(tmp)); }   // vector&&
+            dirty = false;
         }
         else if (o.name == "C") { h.clear(); ref.clear(); dirty = false; }
         else if (o.name == "V") h.reserve(static_cast<size_t>(o.f[0]));
-        else if (o.name == "Y") { H c(h); H e2; e2 = c; h = e2; }                // copy ctor + copy assignment
-        else if (o.name == "Z") { H m(std::move(h)); H e2; e2 = std::move(m); h = std::move(e2); }   // move ctor + move assignment
+        else if (o.name == "Y") { H c(h); H e2 = fresh<H>(); e2 = c; h = e2; }                // copy ctor + copy assignment
+        else if (o.name == "Z") { H m(std::move(h)); H e2 = fresh<H>(); e2 = std::move(m); h = std::move(e2); }   // move ctor + assignment
         emit(i);
     }
     if (!fail.empty()) out << " PROPFAIL@" << fail;
 }
 
-template <typename KT, unsigned Arity>
+template <typename H, typename KT>
 static void run_addr(const std::vector<Op>& ops, size_t nk, std::ostringstream& out) {
-    using H = tlx::DAryAddressableIntHeap<KT, Arity, TabLess<KT>>;
-    H h;
+    H h = fresh<H>();
     std::set<KT> ref;
     bool dirty = false, first = true; std::string fail;
     size_t npop = 0;
@@ -201,8 +235,8 @@ static void run_addr(const std::vector<Op>& ops, size_t nk, std::ostringstream& 
         }
         else if (o.name == "C") { h.clear(); ref.clear(); dirty = false; }
         else if (o.name == "V") h.reserve(static_cast<size_t>(o.f[0]));          // grows handles_ with not_present()
-        else if (o.name == "Y") { H c(h); H e2; e2 = c; h = e2; }
-        else if (o.name == "Z") { H m(std::move(h)); H e2; e2 = std::move(m); h = std::move(e2); }
+        else if (o.name == "Y") { H c(h); H e2 = fresh<H>(); e2 = c; h = e2; }
+        else if (o.name == "Z") { H m(std::move(h)); H e2 = fresh<H>(); e2 = std::move(m); h = std::move(e2); }
         emit(i);
     }
     if (!fail.empty()) out << " PROPFAIL@" << fail;
@@ -211,18 +245,20 @@ static void run_addr(const std::vector<Op>& ops, size_t nk, std::ostringstream& 
 template <typename KT>
 static void addr_dispatch(unsigned d, const std::vector<Op>& ops, size_t nk, std::ostringstream& out) {
     switch (d) {
-    case 1: run_addr<KT, 1>(ops, nk, out); break;
-    case 2: run_addr<KT, 2>(ops, nk, out); break;
-    case 3: run_addr<KT, 3>(ops, nk, out); break;
-    case 4: run_addr<KT, 4>(ops, nk, out); break;
-    case 5: run_addr<KT, 5>(ops, nk, out); break;
-    case 6: run_addr<KT, 6>(ops, nk, out); break;
-    case 7: run_addr<KT, 7>(ops, nk, out); break;
-    case 8: run_addr<KT, 8>(ops, nk, out); break;
+    case 1: run_addr<tlx::DAryAddressableIntHeap<KT, 1, TabLess>, KT>(ops, nk, out); break;
+    case 2: run_addr<tlx::DAryAddressableIntHeap<KT, 2, TabLess>, KT>(ops, nk, out); break;
+    case 3: run_addr<tlx::DAryAddressableIntHeap<KT, 3, TabLess>, KT>(ops, nk, out); break;
+    case 4: run_addr<tlx::DAryAddressableIntHeap<KT, 4, TabLess>, KT>(ops, nk, out); break;
+    case 5: run_addr<tlx::DAryAddressableIntHeap<KT, 5, TabLess>, KT>(ops, nk, out); break;
+    case 6: run_addr<tlx::DAryAddressableIntHeap<KT, 6, TabLess>, KT>(ops, nk, out); break;
+    case 7: run_addr<tlx::DAryAddressableIntHeap<KT, 7, TabLess>, KT>(ops, nk, out); break;
+    case 8: run_addr<tlx::DAryAddressableIntHeap<KT, 8, TabLess>, KT>(ops, nk, out); break;
     default: out << "?arity";
     }
 }
 
+// <rev>: 0 = min order of the table, 1 = max order, 2 = DEFAULT template arguments (Arity 2, std::less, via the
+// d_ary_heap / d_ary_addressable_int_heap aliases; the generator sets priority = key), 3 (dary only) = heap-owning keys
 int main(int argc, char** argv) {
     if (argc < 2) return 2;
     std::ifstream in(argv[1]);
@@ -234,25 +270,42 @@ int main(int argc, char** argv) {
         std::ostringstream out;
         g_prio.clear();
         if (kind == "dary") {
-            unsigned d; int rv; ls >> d >> rv; g_rev = rv != 0;
+#if C13_PART != 2
+            unsigned d; int rv; ls >> d >> rv; g_rev = rv == 1;
             auto ops = parse_ops(ls);
-            switch (d) {
-            case 1: run_dary<1>(ops, out); break;
-            case 2: run_dary<2>(ops, out); break;
-            case 3: run_dary<3>(ops, out); break;
-            case 4: run_dary<4>(ops, out); break;
-            case 5: run_dary<5>(ops, out); break;
-            case 6: run_dary<6>(ops, out); break;
-            case 7: run_dary<7>(ops, out); break;
-            case 8: run_dary<8>(ops, out); break;
+            if (rv == 2) run_dary<tlx::d_ary_heap<uint32_t>, uint32_t>(ops, out);
+            else if (rv == 3 && d == 2) run_dary<tlx::DAryHeap<StrKey, 2, TabLess>, StrKey>(ops, out);
+            else if (rv == 3) run_dary<tlx::DAryHeap<StrKey, 3, TabLess>, StrKey>(ops, out);
+            else switch (d) {
+            case 1: run_dary<tlx::DAryHeap<uint32_t, 1, TabLess>, uint32_t>(ops, out); break;
+            case 2: run_dary<tlx::DAryHeap<uint32_t, 2, TabLess>, uint32_t>(ops, out); break;
+            case 3: run_dary<tlx::DAryHeap<uint32_t, 3, TabLess>, uint32_t>(ops, out); break;
+            case 4: run_dary<tlx::DAryHeap<uint32_t, 4, TabLess>, uint32_t>(ops, out); break;
+            case 5: run_dary<tlx::DAryHeap<uint32_t, 5, TabLess>, uint32_t>(ops, out); break;
+            case 6: run_dary<tlx::DAryHeap<uint32_t, 6, TabLess>, uint32_t>(ops, out); break;
+            case 7: run_dary<tlx::DAryHeap<uint32_t, 7, TabLess>, uint32_t>(ops, out); break;
+            case 8: run_dary<tlx::DAryHeap<uint32_t, 8, TabLess>, uint32_t>(ops, out); break;
             default: out << "?arity";
             }
+#else
+            out << "?part";
+#endif
         } else if (kind == "addr") {
-            unsigned d; int rv; unsigned kt; size_t nk; ls >> d >> rv >> kt >> nk; g_rev = rv != 0;
+            unsigned d; int rv; unsigned kt; size_t nk; ls >> d >> rv >> kt >> nk; g_rev = rv == 1;
             auto ops = parse_ops(ls);
-            if (kt == 8) addr_dispatch<uint8_t>(d, ops, nk, out);
+#if C13_PART != 2
+            if (rv != 2 && kt == 8) { addr_dispatch<uint8_t>(d, ops, nk, out); std::cout << out.str() << std::endl; continue; }
+#endif
+#if C13_PART != 1
+            if (rv == 2) run_addr<tlx::d_ary_addressable_int_heap<uint32_t>, uint32_t>(ops, nk, out);
             else if (kt == 16) addr_dispatch<uint16_t>(d, ops, nk, out);
-            else addr_dispatch<uint32_t>(d, ops, nk, out);
+            else if (kt == 64 && d == 2) run_addr<tlx::DAryAddressableIntHeap<uint64_t, 2, TabLess>, uint64_t>(ops, nk, out);
+            else if (kt == 64) run_addr<tlx::DAryAddressableIntHeap<uint64_t, 4, TabLess>, uint64_t>(ops, nk, out);
+            else if (kt != 8) addr_dispatch<uint32_t>(d, ops, nk, out);
+            else out << "?part";
+#else
+            out << "?part";
+#endif
         } else out << "?";
         std::cout << out.str() << std::endl;   // flush per case: a crash points at the next case
     }
